@@ -1,7 +1,10 @@
 // build: no-xen
 //! C02: every address query of GuestMemory / GuestMemoryRegion on GuestMemoryMmap layouts and on
 //! MockMem, a harness-defined implementor that relies on every provided (default) method.
-//! case:  kind(0 mmap, 1 mock) mode [starts] [lens] op a b c
+//! case:  kind(0 mmap, 1 mock writing both capability methods, 3 / 4 / 5 mock region types that really INHERIT
+//!        get_slice / get_host_address / both from the trait) mode [starts] [lens] op a b c
+//! ops 0-9 memory-level queries, 10-14 region-level arithmetic defaults, 15 region.get_host_address(b),
+//!        16 region.get_slice(b, c), 17 region.as_volatile_slice(), 18 region.file_offset()  (a = region index)
 //! obs :  k(0 None/false, 1 Some/true/Ok/value, 2 Err class, 3 panic) x y z   (+ [starts] [lens] for op 9)
 //! Also exports MockMem/MockRegion and the layout helpers used by the C03 suite.
 use crate::tok::n;
@@ -156,6 +159,173 @@ impl GuestMemory for MockMem {
 }
 
 // ------------------------------------------------------------------------------------------
+// Implementor flavours that REALLY inherit the capability defaults of GuestMemoryRegion (a trait default
+// cannot be inherited conditionally, so each flavour is its own type).  The heap block, start and length
+// live in an inner MockRegion, none of whose trait methods is used.
+//   HostOnlyRegion  (kind 3): writes get_host_address; get_slice, as_volatile_slice, file_offset inherited
+//   SliceOnlyRegion (kind 4): writes get_slice; get_host_address, as_volatile_slice, file_offset inherited
+//   BareRegion      (kind 5): writes neither
+pub struct HostOnlyRegion(MockRegion);
+pub struct SliceOnlyRegion(MockRegion);
+pub struct BareRegion(MockRegion);
+
+// region-level byte access through the region-wide slice, as GuestRegionMmap does; a region that cannot hand
+// out slices reports the error of as_volatile_slice
+macro_rules! bytes_via_slice {
+    ($t:ty) => {
+        impl Bytes<MemoryRegionAddress> for $t {
+            type E = GmError;
+            fn write(&self, buf: &[u8], addr: MemoryRegionAddress) -> guest_memory::Result<usize> {
+                self.as_volatile_slice()?.write(buf, addr.raw_value() as usize).map_err(Into::into)
+            }
+            fn read(&self, buf: &mut [u8], addr: MemoryRegionAddress) -> guest_memory::Result<usize> {
+                self.as_volatile_slice()?.read(buf, addr.raw_value() as usize).map_err(Into::into)
+            }
+            fn write_slice(&self, buf: &[u8], addr: MemoryRegionAddress) -> guest_memory::Result<()> {
+                self.as_volatile_slice()?.write_slice(buf, addr.raw_value() as usize).map_err(Into::into)
+            }
+            fn read_slice(&self, buf: &mut [u8], addr: MemoryRegionAddress) -> guest_memory::Result<()> {
+                self.as_volatile_slice()?.read_slice(buf, addr.raw_value() as usize).map_err(Into::into)
+            }
+            fn read_volatile_from<F: ReadVolatile>(
+                &self,
+                addr: MemoryRegionAddress,
+                src: &mut F,
+                count: usize,
+            ) -> guest_memory::Result<usize> {
+                self.as_volatile_slice()?.read_volatile_from(addr.0 as usize, src, count).map_err(Into::into)
+            }
+            fn read_exact_volatile_from<F: ReadVolatile>(
+                &self,
+                addr: MemoryRegionAddress,
+                src: &mut F,
+                count: usize,
+            ) -> guest_memory::Result<()> {
+                self.as_volatile_slice()?.read_exact_volatile_from(addr.0 as usize, src, count).map_err(Into::into)
+            }
+            fn write_volatile_to<F: WriteVolatile>(
+                &self,
+                addr: MemoryRegionAddress,
+                dst: &mut F,
+                count: usize,
+            ) -> guest_memory::Result<usize> {
+                self.as_volatile_slice()?.write_volatile_to(addr.0 as usize, dst, count).map_err(Into::into)
+            }
+            fn write_all_volatile_to<F: WriteVolatile>(
+                &self,
+                addr: MemoryRegionAddress,
+                dst: &mut F,
+                count: usize,
+            ) -> guest_memory::Result<()> {
+                self.as_volatile_slice()?.write_all_volatile_to(addr.0 as usize, dst, count).map_err(Into::into)
+            }
+            fn store<T: AtomicAccess>(&self, val: T, addr: MemoryRegionAddress, order: Ordering) -> guest_memory::Result<()> {
+                self.as_volatile_slice().and_then(|s| s.store(val, addr.raw_value() as usize, order).map_err(Into::into))
+            }
+            fn load<T: AtomicAccess>(&self, addr: MemoryRegionAddress, order: Ordering) -> guest_memory::Result<T> {
+                self.as_volatile_slice().and_then(|s| s.load(addr.raw_value() as usize, order).map_err(Into::into))
+            }
+        }
+    };
+}
+bytes_via_slice!(HostOnlyRegion);
+bytes_via_slice!(SliceOnlyRegion);
+bytes_via_slice!(BareRegion);
+
+// the required methods, the same for every flavour
+macro_rules! required_region_methods {
+    () => {
+        type B = ();
+        fn len(&self) -> GuestUsize {
+            self.0.len
+        }
+        fn start_addr(&self) -> GuestAddress {
+            GuestAddress(self.0.start)
+        }
+        fn bitmap(&self) -> &Self::B {
+            &()
+        }
+    };
+}
+impl GuestMemoryRegion for HostOnlyRegion {
+    required_region_methods!();
+    // the same code as GuestRegionMmap::get_host_address (src/mmap/mod.rs:334), over the heap block
+    fn get_host_address(&self, addr: MemoryRegionAddress) -> guest_memory::Result<*mut u8> {
+        self.check_address(addr)
+            .ok_or(GmError::InvalidBackendAddress)
+            .map(|addr| self.0.ptr.wrapping_offset(addr.raw_value() as isize))
+    }
+}
+impl GuestMemoryRegion for SliceOnlyRegion {
+    required_region_methods!();
+    // same checks as MmapRegion::get_slice (compute_end_offset), over the heap block
+    fn get_slice(&self, offset: MemoryRegionAddress, count: usize) -> guest_memory::Result<VolatileSlice<BS<()>>> {
+        let off = offset.raw_value() as usize;
+        let end = off.checked_add(count).ok_or(GmError::InvalidBackendAddress)?;
+        if end > self.0.len as usize {
+            return Err(GmError::InvalidBackendAddress);
+        }
+        // SAFETY: [off, off+count) lies inside the block owned by self, which outlives the slice
+        Ok(unsafe { VolatileSlice::new(self.0.ptr.add(off), count) })
+    }
+}
+impl GuestMemoryRegion for BareRegion {
+    required_region_methods!();
+}
+/// a collection of regions of one flavour; linear find_region in collection order, like MockMem
+pub struct FlavMem<R> {
+    pub regions: Vec<R>,
+}
+impl<R: GuestMemoryRegion> GuestMemory for FlavMem<R> {
+    type R = R;
+    fn num_regions(&self) -> usize {
+        self.regions.len()
+    }
+    fn find_region(&self, addr: GuestAddress) -> Option<&R> {
+        self.regions.iter().find(|r| r.to_region_addr(addr).is_some())
+    }
+    fn iter(&self) -> impl Iterator<Item = &Self::R> {
+        self.regions.iter()
+    }
+}
+enum Flav {
+    Host(FlavMem<HostOnlyRegion>),
+    Slice(FlavMem<SliceOnlyRegion>),
+    Bare(FlavMem<BareRegion>),
+}
+/// a flavoured memory (kinds 3, 4, 5) plus the independent knowledge about it (`meta.mem` is an empty stand-in)
+struct FBuilt {
+    meta: Built,
+    flav: Flav,
+}
+fn build_flavour(kind: u64, lay: &[(u64, u64)]) -> FBuilt {
+    let blocks: Vec<MockRegion> = lay.iter().map(|&(s, l)| MockRegion::new(s, l)).collect();
+    let bases: Vec<*mut u8> = blocks.iter().map(|r| r.host_ptr()).collect();
+    fn regs_of<R>(v: &[R]) -> Vec<*const u8> {
+        v.iter().map(|r| r as *const R as *const u8).collect()
+    }
+    let (flav, regs) = match kind {
+        3 => {
+            let m = FlavMem { regions: blocks.into_iter().map(HostOnlyRegion).collect::<Vec<_>>() };
+            let regs = regs_of(&m.regions);
+            (Flav::Host(m), regs)
+        }
+        4 => {
+            let m = FlavMem { regions: blocks.into_iter().map(SliceOnlyRegion).collect::<Vec<_>>() };
+            let regs = regs_of(&m.regions);
+            (Flav::Slice(m), regs)
+        }
+        _ => {
+            let m = FlavMem { regions: blocks.into_iter().map(BareRegion).collect::<Vec<_>>() };
+            let regs = regs_of(&m.regions);
+            (Flav::Bare(m), regs)
+        }
+    };
+    let meta = Built { files: Vec::new(), mem: Mem::Mock(MockMem { regions: Vec::new() }), lay: lay.to_vec(), bases, regs };
+    FBuilt { meta, flav }
+}
+
+// ------------------------------------------------------------------------------------------
 /// A built memory plus what the harness knows about it independently of the queries under test.
 pub enum Mem {
     Mmap(GuestMemoryMmap<()>, Vec<Arc<GuestRegionMmap<()>>>),
@@ -180,7 +350,8 @@ fn memfd(size: u64) -> Arc<std::fs::File> {
     }
 }
 /// kind 0: anonymous GuestMemoryMmap, 1: MockMem, 2: file-backed (memfd, MAP_SHARED) GuestMemoryMmap,
-/// 3: MockMem whose regions provide get_host_address but no get_slice (suite C02, all queries except get_slice)
+/// 3: MockMem whose regions provide get_host_address but hand-code the refusal of get_slice (kept for source
+/// compatibility; suite C02 itself runs kinds 3, 4, 5 on the flavour types above, see `build_flavour`)
 pub fn build(kind: u64, lay: &[(u64, u64)]) -> Built {
     if kind == 0 || kind == 2 {
         let mut files = Vec::new();
@@ -317,6 +488,21 @@ fn cached(kind: u64, lay: &[(u64, u64)]) -> std::rc::Rc<Built> {
     })
 }
 
+thread_local! { static FCACHE: RefCell<Option<(u64, Vec<(u64, u64)>, std::rc::Rc<FBuilt>)>> = RefCell::new(None); }
+fn fcached(kind: u64, lay: &[(u64, u64)]) -> std::rc::Rc<FBuilt> {
+    FCACHE.with(|c| {
+        let mut c = c.borrow_mut();
+        if let Some((k, l, b)) = c.as_ref() {
+            if *k == kind && l == lay {
+                return b.clone();
+            }
+        }
+        let b = std::rc::Rc::new(build_flavour(kind, lay));
+        *c = Some((kind, lay.to_vec(), b.clone()));
+        b
+    })
+}
+
 fn o4(k: u64, x: u64, y: u64, z: u64) -> Vec<Tok> {
     vec![n(k), n(x), n(y), n(z)]
 }
@@ -386,10 +572,25 @@ fn query<M: GuestMemory>(m: &M, b: &Built, op: u64, a: u64, x: u64, y: u64) -> V
             v.push(Tok::of_u64s(&rs.iter().map(|r| r.len()).collect::<Vec<_>>()));
             v
         }
-        10..=14 => {
+        10..=18 => {
             let rs: Vec<&M::R> = m.iter().collect();
             let r = rs[a as usize];
+            // pointer - host base of THIS region (mod 2^64): a pointer outside the block shows as an offset >= len
+            let rel = |p: *const u8| (p as usize).wrapping_sub(b.bases[a as usize] as usize) as u64;
             match op {
+                15 => match r.get_host_address(MemoryRegionAddress(x)) {
+                    Ok(p) => o4(1, rel(p as *const u8), 0, 0),
+                    Err(e) => o4(2, err_class(&e), 0, 0),
+                },
+                16 => match r.get_slice(MemoryRegionAddress(x), y as usize) {
+                    Ok(s) => o4(1, rel(s.ptr_guard().as_ptr()), s.len() as u64, 0),
+                    Err(e) => o4(2, err_class(&e), 0, 0),
+                },
+                17 => match r.as_volatile_slice() {
+                    Ok(s) => o4(1, rel(s.ptr_guard().as_ptr()), s.len() as u64, 0),
+                    Err(e) => o4(2, err_class(&e), 0, 0),
+                },
+                18 => o4(r.file_offset().is_some() as u64, 0, 0, 0),
                 10 => o4(1, r.last_addr().raw_value(), 0, 0),
                 11 => o4(r.address_in_range(MemoryRegionAddress(x)) as u64, 0, 0, 0),
                 12 => opt(r.check_address(MemoryRegionAddress(x)).map(|v| v.raw_value())),
@@ -405,11 +606,20 @@ fn exec(case: &[Tok]) -> Vec<Tok> {
     let kind = case[0].u();
     let lay = layout_of(case);
     let (op, a, x, y) = (case[4].u(), case[5].u(), case[6].u(), case[7].u());
-    let b = cached(kind, &lay);
-    let r = util::catch(|| match &b.mem {
-        Mem::Mmap(m, _) => query(m, &b, op, a, x, y),
-        Mem::Mock(m) => query(m, &b, op, a, x, y),
-    });
+    let r = if (3..=5).contains(&kind) {
+        let fb = fcached(kind, &lay);
+        util::catch(|| match &fb.flav {
+            Flav::Host(m) => query(m, &fb.meta, op, a, x, y),
+            Flav::Slice(m) => query(m, &fb.meta, op, a, x, y),
+            Flav::Bare(m) => query(m, &fb.meta, op, a, x, y),
+        })
+    } else {
+        let b = cached(kind, &lay);
+        util::catch(|| match &b.mem {
+            Mem::Mmap(m, _) => query(m, &b, op, a, x, y),
+            Mem::Mock(m) => query(m, &b, op, a, x, y),
+        })
+    };
     match r {
         Some(v) => v,
         None => {
@@ -484,12 +694,15 @@ pub fn lay_toks(kind: u64, lay: &[(u64, u64)]) -> Vec<Tok> {
 
 fn gen(rng: &mut Rng, tier: Tier, emit: &mut dyn FnMut(Vec<Tok>)) {
     let u = universe();
-    let nlay = if tier == Tier::Quick { 60 } else { 1500 };
+    // thorough: 1000 layouts for each of GuestMemoryMmap / MockMem and 150 for each flavour (~9M cases per build)
+    let nlay = if tier == Tier::Quick { 60 } else { 1000 };
+    let nflav = if tier == Tier::Quick { 20 } else { 150 };
     let big = [0u64, 1, 2, 3, 5, 8, 17, 47, 48, 49, 1 << 32, (1 << 63) - 1, 1 << 63, TOP - 24, TOP - 1, TOP];
-    for kind in [0u64, 1, 3] {
-        for li in 0..(if kind == 3 { nlay / 3 } else { nlay }) {
+    for kind in [0u64, 1, 3, 4, 5] {
+        for li in 0..(if kind >= 3 { nflav } else { nlay }) {
             let maxsz = if li % 3 == 0 { 3 } else { 8 };
-            let lay = small_layout(rng, kind, maxsz, 5);
+            // the flavour collections are generic implementors like MockMem: any order, may end at 2^64
+            let lay = small_layout(rng, if kind >= 3 { 1 } else { kind }, maxsz, 5);
             let head = lay_toks(kind, &lay);
             let mut q = |op: u64, a: u64, b: u64, c: u64| {
                 let mut t = head.clone();
@@ -529,10 +742,8 @@ fn gen(rng: &mut Rng, tier: Tier, emit: &mut dyn FnMut(Vec<Tok>)) {
                 for &l in &lens {
                     q(5, a, l, 0);
                 }
-                if kind != 3 {
-                    for &l in lens.iter().take(8) {
-                        q(8, a, l, 0);
-                    }
+                for &l in lens.iter().take(8) {
+                    q(8, a, l, 0);
                 }
             }
             // region-level provided methods
@@ -553,6 +764,28 @@ fn gen(rng: &mut Rng, tier: Tier, emit: &mut dyn FnMut(Vec<Tok>)) {
                 for a in [s.wrapping_sub(1), s, s.wrapping_add(l - 1), s.wrapping_add(l), rng.next()] {
                     q(14, i, a, 0);
                 }
+                // region-level accessors: offsets and counts at the region's ends, the middle of the
+                // address space and the extremes
+                let edge = [0u64, 1, l - 1, l, l + 1, 1 << 63, TOP];
+                for &x in &edge {
+                    q(15, i, x, 0);
+                    for &c in &edge {
+                        q(16, i, x, c);
+                    }
+                    q(16, i, x, l.saturating_sub(x));              // exactly to the end
+                    q(16, i, x, l.saturating_sub(x) + 1);          // one byte too many
+                    q(16, i, x, (TOP - x).wrapping_add(1));        // x + c = 2^64: the sum wraps to 0
+                    q(16, i, x, (TOP - x).wrapping_add(1 + rng.below(l + 1))); // wraps to a small in-range end
+                }
+                for _ in 0..4 {
+                    let x = rng.below(l + 2);
+                    q(15, i, x, 0);
+                    q(16, i, x, rng.below(l + 2));
+                }
+                q(15, i, rng.next(), 0);
+                q(16, i, rng.next(), rng.next());
+                q(17, i, 0, 0);
+                q(18, i, 0, 0);
             }
         }
     }
@@ -628,7 +861,13 @@ fn gen(rng: &mut Rng, tier: Tier, emit: &mut dyn FnMut(Vec<Tok>)) {
                 q(12, i, x, 0);
                 q(13, i, x, 1);
                 q(13, i, 1, x);
+                q(15, i, x, 0);
+                for c in [1u64, l, l.saturating_sub(x), l.saturating_sub(x) + 1, (TOP - x).wrapping_add(1), TOP] {
+                    q(16, i, x, c);
+                }
             }
+            q(17, i, 0, 0);
+            q(18, i, 0, 0);
             for &a in &pts {
                 q(14, i, a, 0);
             }
